@@ -260,26 +260,36 @@ func CheckStepStructure(spec *GraphSpec, ref *RefResult, execs []Exec) *Mismatch
 // observed executions ⊆ reference executions (same input); every ancestor of END
 // that ran in the reference must have executed.
 func CompareExecsAllPred(ref *RefResult, execs []Exec) *Mismatch {
-	want := map[string]string{}
+	// multiset per path: nodes of all-predecessor graphs appear at most once in the reference,
+	// nodes of a nested Pregel graph may legitimately appear several times
+	want := map[string][]string{}
+	orig := map[string]int{}
 	for _, e := range ref.Execs {
-		want[e.Path] = e.In
+		want[e.Path] = append(want[e.Path], e.In)
+		orig[e.Path]++
 	}
-	seen := map[string]bool{}
 	render := func() string {
 		return "reference executions:\n  " + strings.Join(ref.ExecMultiset(), "\n  ") + "\nobserved executions:\n  " + strings.Join(ExecMultiset(execs), "\n  ")
 	}
 	for _, e := range execs {
-		if seen[e.Path] {
-			return &Mismatch{Class: "exec-twice", Detail: "node " + e.Path + " executed more than once\n" + render()}
-		}
-		seen[e.Path] = true
-		in, ok := want[e.Path]
-		if !ok {
+		ins := want[e.Path]
+		if len(ins) == 0 {
+			if orig[e.Path] > 0 {
+				return &Mismatch{Class: "exec-twice", Detail: "node " + e.Path + " executed more often than it was triggered\n" + render()}
+			}
 			return &Mismatch{Class: "exec-untriggered", Detail: "node " + e.Path + " executed although the reference skips it\n" + render()}
 		}
-		if e.InOK && in != e.In {
-			return &Mismatch{Class: "exec-wrong-input", Detail: "node " + e.Path + " executed on " + e.In + ", reference input " + in + "\n" + render()}
+		found := -1
+		for i, in := range ins {
+			if !e.InOK || in == e.In {
+				found = i
+				break
+			}
 		}
+		if found < 0 {
+			return &Mismatch{Class: "exec-wrong-input", Detail: "node " + e.Path + " executed on " + e.In + ", reference input(s) " + fmt.Sprint(ins) + "\n" + render()}
+		}
+		want[e.Path] = append(ins[:found:found], ins[found+1:]...)
 	}
 	return nil
 }
